@@ -169,6 +169,8 @@ impl Board {
     /// board.make_move(Ply::new(Square::new("a2"), Square::new("a3")));
     /// ```
     pub fn make_move(&mut self, mut new_move: Ply) {
+        #[cfg(rce_verif)]
+        crate::verif_hooks::work_tick();
         self.position_history.insert(self.zkey);
         let previous_move: Ply = self.history.last().copied().unwrap_or_default();
 
@@ -779,6 +781,14 @@ impl Board {
             .into_iter()
             .find(|m| m.to_notation() == notation)
             .ok_or("Move not found")
+    }
+}
+
+#[cfg(rce_verif)]
+impl Board {
+    /// Read-only access for the simulation oracle.
+    pub const fn verif_en_passant_file(&self) -> Option<u8> {
+        self.en_passant_file
     }
 }
 
